@@ -50,7 +50,9 @@ def showDecision : Decision → String
   | .reject => "reject"
   | .panic => "panic"
 
-def step (st : St) (t : List String) : St × String :=
+def stepC (own ts0 : Bool) (clock : Nat) (st : St) (t : List String) : St × String :=
+  let self := fun (p : Nat) => if own then p else p + 1
+  let snapTs := fun (ts : Nat) => if ts0 then 0 else ts
   match t with
   | ["reset"] => (⟨0, [], [], 0, 0, 0⟩, "ok")
   | "hist" :: e :: k :: rest =>
@@ -70,7 +72,7 @@ def step (st : St) (t : List String) : St × String :=
       Mixin.Driver.Mint.nats outs with
     | some p, some ts, some thr, some canon, some cb, some ca, some cr, some k, some outs =>
       if outs.length ≠ k then (st, "bad-op") else
-      (st, showDecision (validateMint (envAt st ts thr canon) p ts ⟨cb, ca, outs, cr⟩))
+      (st, showDecision (validateMintSnap (self p) clock (envAt st (opTime (self p) clock p (snapTs ts)) thr canon) p (snapTs ts) ⟨cb, ca, outs, cr⟩))
     | _, _, _, _, _, _, _, _, _ => (st, "bad-op")
   | ["mintnew", p, ts, thr, canon] =>
     match hashNat p, u64? ts, thr.toNat?, restNat canon with
@@ -87,6 +89,17 @@ def step (st : St) (t : List String) : St × String :=
         | d => (st, showDecision d)
     | _, _, _, _ => (st, "bad-op")
   | _ => (st, "bad-op")
+
+def step (st : St) (t : List String) : St × String :=
+  match t with
+  | "clk" :: o :: z :: ck :: inner =>
+    match o, z, u64? ck with
+    | "0", "0", some ck => stepC false false ck st inner
+    | "0", "1", some ck => stepC false true ck st inner
+    | "1", "0", some ck => stepC true false ck st inner
+    | "1", "1", some ck => stepC true true ck st inner
+    | _, _, _ => (st, "bad-op")
+  | _ => stepC false false 0 st t
 
 def run : IO Unit := runLoop (⟨0, [], [], 0, 0, 0⟩ : St) step
 
